@@ -561,6 +561,29 @@ pub fn gen_c17_corpus(args: &[String]) -> i32 {
             }
         }
     }
+    // aggregates over long lists in random order (shuffled distinct values, even and odd counts from 18
+    // to 400): shared helper code selected by cfg - a sort in one build, a selection in another - is
+    // exercised past the small-slice thresholds of the standard library (seeded change C17-r9: the median
+    // of 34 or more values in builds without eval_f64 / eval_number, wrong for a few orders in a hundred)
+    {
+        let mut rng = Rng::derive(seed, "c17-lists", 0);
+        for ev in [Ev::F64, Ev::I64, Ev::Dec, Ev::Num] {
+            let ph = ph_pool(ev)[0];
+            for i in 0..160usize {
+                let n = match i % 4 {
+                    0 => 34 + 2 * rng.below(40),
+                    1 => 18 + rng.below(30),
+                    2 => 64 + 2 * rng.below(170),
+                    _ => 20 + 2 * rng.below(100),
+                };
+                let mut vals: Vec<i64> = (0..n as i64).map(|k| 10 * (k + 1)).collect();
+                rng.shuffle(&mut vals);
+                let name = ["med", "median", "med", "avg", "max", "min", "med", "median"][i % 8];
+                let e = format!("{}({})", name, vals.iter().map(|v| v.to_string()).collect::<Vec<_>>().join(","));
+                push(ev, &e, ph, &mut lines);
+            }
+        }
+    }
     // arithmetic on long operands: which algorithms the dependencies were built with (their own cargo
     // features) shows in the last digits of quotients, remainders, products and elementary functions
     let long_lit = |rng: &mut Rng, ev: Ev| -> String {
